@@ -100,6 +100,10 @@ def gen_blacklist(g):
         "new-member-name-is-not-an-attribute-already": "is_member and attributes[substitute]",
         "no-two-names-get-one-new-name": "len(substitute_names[substitute]) > 1",
     }
+    cm = [n for n in ast.walk(fn) if isinstance(n, ast.Assign) and ast.unparse(n.targets[0]) == "class_members"]
+    okc = len(cm) == 1 and isinstance(cm[0].value, ast.SetComp) and ast.unparse(cm[0].value.generators[0].iter) in ("core.walk(ast_tree, ast.ClassDef)", "ast.walk(ast_tree)") \
+        and any("ast.walk(" in ast.unparse(gen_.iter) for gen_ in cm[0].value.generators[1:])
+    g.oblige("table", "class-members-are-collected-from-every-class-and-every-target-name", [], z3.BoolVal(bool(okc)), (cm[0] if cm else fn).lineno if False else fn.lineno)
     top = guard.test.values if isinstance(guard.test, ast.BoolOp) and isinstance(guard.test.op, ast.Or) else [guard.test]
     g.oblige("table", "guard-is-a-disjunction-of-refusal-conditions", [], z3.BoolVal(isinstance(guard.test, ast.BoolOp) and isinstance(guard.test.op, ast.Or)), guard.lineno)
     for label, frag in conds.items():
